@@ -147,6 +147,7 @@ type replayFile struct {
 }
 
 type Run struct {
+	watchdogs int // cases that ended in the real-time watchdog without a verdict
 	t     *testing.T
 	id    string
 	env   envCfg
@@ -217,6 +218,9 @@ func (r *Run) record(sub string, sc any, v Verdict) bool {
 	defer r.mu.Unlock()
 	if strings.Contains(v.Violation, "WATCHDOG-INCONCLUSIVE") || strings.Contains(v.Violation, "HARNESS-INCONCLUSIVE") {
 		r.st.Inconclusive = v.Violation
+		if strings.Contains(v.Violation, "WATCHDOG-INCONCLUSIVE") {
+			r.watchdogs++
+		}
 		return false
 	}
 	if v.Violation != "" {
@@ -260,7 +264,18 @@ func (r *Run) record(sub string, sc any, v Verdict) bool {
 }
 
 // eval runs check on an enumerated (non-rapid) case and fails the test at the first violation.
+// gaveUp: two cases already ran into the real-time watchdog without a verdict (30 s each): the
+// implementation cannot be observed with this machinery, the shard ends as inconclusive at once.
+func (r *Run) gaveUp() bool {
+	r.mu.Lock()
+	defer r.mu.Unlock()
+	return r.watchdogs >= 2
+}
+
 func evalCase[S any](r *Run, sub string, sc S, check func(*testing.T, S) Verdict) {
+	if r.gaveUp() {
+		return
+	}
 	v := check(r.t, sc)
 	if r.record(sub, sc, v) {
 		r.finish()
@@ -276,6 +291,9 @@ func rapidPart[S any](r *Run, sub string, checks int, gen func(*rapid.T) S, chec
 	setRapidChecks(checks)
 	r.t.Run(sub, func(t *testing.T) {
 		rapid.Check(t, func(rt *rapid.T) {
+			if r.gaveUp() {
+				return
+			}
 			sc := gen(rt)
 			v := check(t, sc)
 			if r.record(sub, sc, v) {
@@ -383,12 +401,42 @@ func Bubble(t *testing.T, fn func()) (failure string) {
 	buf := make([]byte, 4<<20)
 	buf = buf[:runtime.Stack(buf, true)]
 	if g := mutexBlockedInFlyt(string(buf)); g != "" {
+		if w := harnessWithholds(string(buf)); w != "" {
+			// Not a deadlock of the implementation: the holder of that mutex waits for something only
+			// the harness's controller (a parked gate) or the virtual clock (a sleeper) can deliver,
+			// and neither moves while a goroutine waits on a mutex (it is not "durably blocked").
+			return "WATCHDOG-INCONCLUSIVE: a flyt goroutine waits on a mutex while " + w + "; an implementation that holds a mutex across a blocking operation cannot be observed under synctest:\n" + g
+		}
 		return "deadlock (watchdog after " + bubbleWatchdog.String() + " of real time): a goroutine of the case is blocked in sync.Mutex.Lock called from flyt while every other goroutine is parked:\n" + g
 	}
 	return "WATCHDOG-INCONCLUSIVE: case did not finish within " + bubbleWatchdog.String() + " of real time and no flyt goroutine is blocked on a mutex"
 }
 
 var bubbleWatchdog = 30 * time.Second
+
+// gateWait parks a harness callback on a gate only the controller opens. It is a function of its
+// own so that the watchdog can recognise such goroutines in a dump.
+//
+//go:noinline
+func gateWait(ch <-chan struct{}) { <-ch }
+
+// harnessWithholds: does the dump show a bubble goroutine parked on a harness gate, or one asleep
+// on the (virtual) clock? Then progress depends on the controller / the clock, not on flyt.
+func harnessWithholds(dump string) string {
+	for _, g := range strings.Split(dump, "\n\n") {
+		head, _, _ := strings.Cut(g, "\n")
+		if !strings.Contains(head, "synctest bubble") {
+			continue
+		}
+		if strings.Contains(g, "verifharness.gateWait(") {
+			return "callbacks are parked on gates the controller has not opened"
+		}
+		if strings.Contains(head, "[sleep") || strings.Contains(g, "time.Sleep(") {
+			return "goroutines are asleep on the virtual clock"
+		}
+	}
+	return ""
+}
 
 // mutexBlockedInFlyt returns the stack of a goroutine that is inside a synctest bubble, waits
 // in sync.(*Mutex).Lock / RWMutex and has a flyt frame, or "".
@@ -504,6 +552,27 @@ func embedded(obj any, name string) (f reflect.Value, ok bool) {
 		return reflect.Value{}, false
 	}
 	return f, true
+}
+
+// newBatchNode calls flyt.NewBatchNode(opts...) through reflection, so that the harness builds
+// whether the constructor is declared with ...any (today) or with a typed option parameter.
+func newBatchNode(opts []any) *flyt.BatchNodeBuilder {
+	fn := reflect.ValueOf(flyt.NewBatchNode)
+	ft := fn.Type()
+	var args []reflect.Value
+	if ft.NumIn() == 1 && ft.IsVariadic() {
+		elem := ft.In(0).Elem()
+		for _, o := range opts {
+			v := reflect.ValueOf(o)
+			switch {
+			case v.Type().AssignableTo(elem):
+				args = append(args, v)
+			case v.Type().ConvertibleTo(elem):
+				args = append(args, v.Convert(elem))
+			}
+		}
+	}
+	return fn.Call(args)[0].Interface().(*flyt.BatchNodeBuilder)
 }
 
 func embeddedBase(obj any) *flyt.BaseNode {
